@@ -15,6 +15,14 @@ use crate::{arbiter::ArbiterHandle, Arbiter};
 
 static SYSTEM_COUNT: AtomicUsize = AtomicUsize::new(0);
 
+/// Restart the process-wide system and arbiter id counters (simulation seam: one run is a pure
+/// function of its seed only if no state survives from the runs before it).
+#[cfg(actix_net_verif)]
+pub(crate) fn verif_reset_ids() {
+    SYSTEM_COUNT.store(0, Ordering::SeqCst);
+    crate::arbiter::COUNT.store(0, Ordering::SeqCst);
+}
+
 thread_local!(
     static CURRENT: RefCell<Option<System>> = const { RefCell::new(None) };
 );
